@@ -180,8 +180,12 @@ def _search_shard(pid, tier, seed, shard, nshards, deadline):
         complete = True
         it = enum_sh(tier, shard, nshards) if enum_sh is not None else (
             c for i, c in enumerate(enum(tier)) if i % nshards == shard)
+        # enumeration may use at most 60% of the wall budget, so that the
+        # generated search always runs too
+        t_enum = time.time()
+        enum_deadline = t_enum + 0.6 * max(deadline - t_enum, 0)
         for case in it:
-            if time.time() > deadline:
+            if time.time() > enum_deadline:
                 acc.inconclusive = True
                 complete = False
                 break
